@@ -113,7 +113,8 @@ def gen(rng, tier):
         {'sel': 'ma.dfn1', 'param': 'x', 'kind': 'importable'}])
                      for _ in range(rng.randint(1, 4))],
            'skip': rng.choice([True, True, False]),
-           'preregister': rng.random() < 0.4}
+           'preregister': rng.random() < 0.4,
+           'use_before_import': rng.random() < 0.3}
   return {'parses': parses, 'dyn': dyn, 'use': rng.random() < 0.7}
 
 
@@ -415,6 +416,12 @@ def run(case):
     lines = list(header)
     want = {}
     must_fail = None
+    if dyn.get('use_before_import'):
+      # the symbol is used before the file imports it: unknown at that point
+      # (skipped or an error), known afterwards
+      lines = [header[0], 'ma.dfn0.x = 7', header[1]]
+      if not dyn['skip']:
+        must_fail = 'no_symbol'
     for i, s in enumerate(dyn['stmts']):
       lines.append('%s.%s = %d' % (s['sel'], s['param'], 100 + i))
       if must_fail:
